@@ -241,6 +241,12 @@ func genDates(t *rapid.T, n int, layout string) []string {
 	out := make([]string, 0, n)
 	for _, tm := range genInstants(t, n) {
 		out = append(out, renderDate(t, tm, layout))
+		if layoutHasZone(layout) && len(out) < n && rapid.IntRange(0, 2).Draw(t, "respell") == 0 {
+			out = append(out, renderDate(t, tm, layout)) // the same instant, (mostly) another zone
+		}
+		if len(out) >= n {
+			break
+		}
 	}
 	return out
 }
@@ -262,6 +268,9 @@ const (
 // as drawn) and the date layout when kind == kDates.
 func genKeySet(t *rapid.T, kind string, maxN int) ([]string, string) {
 	n := rapid.IntRange(2, maxN).Draw(t, "nKeys")
+	if n < 6 && maxN >= 8 && rapid.IntRange(0, 3).Draw(t, "grow") != 0 {
+		n += 4 // small sets stay, but most sets have >= 5 keys after de-duplication
+	}
 	var raw []string
 	layout := ""
 	one := func(class int) string {
@@ -382,7 +391,7 @@ func kindsFor(mode string) []string {
 func classifyKeys(keys []string, layout string) string {
 	ks := summarise(keys, layout)
 	switch {
-	case ks.instants != nil:
+	case ks.uniform:
 		return kDates
 	case ks.allWeekdays:
 		return kWeekdays
